@@ -175,6 +175,13 @@ def run(ctx):
         if ctx.left() < 25:
             break
         adds = [fr.gen_add(rng) for _ in range(rng.randint(1, 6))]
+        if i % 3 == 1:
+            # the same (regex, specific operator) is updated again under other settings: the later rule REPLACES the earlier one, for
+            # resolution as for the export
+            base = rng.choice(adds)
+            again = dict(fr.gen_add(rng), regex=base["regex"], operation=base["operation"] if base["operation"] != "*" else "FULLY_CONNECTED")
+            first = dict(base, operation=again["operation"])
+            adds = adds + [first, again] if rng.random() < 0.5 else [first] + adds + [again]
         real = fr.RealRecipe()
         for c in adds:
             real.step(c)
